@@ -283,3 +283,17 @@ for (nm, fn) in [('5_1_6', 'ref_new_repeats_5_1_6'), ('6_0_6', 'ref_new_repeats_
     ob('C04.ref.' + nm, ['C04', 'C13'], 'ska_ref/new', fn, tier='thorough', functions=REFNEW, inst='u64', needs_parts=['ska_ref/common', 'split_kmer/common'], caps={'MCAP': 1, 'SCAP': 4, 'ACAP': 1},
        models=['needletail (in-memory records)', 'hashbrown', 'ndarray'], stubs=['core::str::from_utf8 -> unchecked (kani::stub)'], sym='three contigs (%s) of upper-case bases, single strand, repeat mask on' % nm,
        oracle='k-mer list = windows of every contig in order; repeat_coors = exactly the absolute positions within h of the centre of a split k-mer that occurs more than once', bounds='k=5, 12 bases', timeout=7200, mem_gb=28, mem_expect_gb=14)
+
+# ------------------------------------------------------------------ C11 (sequential model: merge tree and pool initialisation)
+TREEF = ['src/merge_ska_dict.rs::build_and_merge', 'src/merge_ska_dict.rs::parallel_append', 'src/merge_ska_dict.rs::multi_append', MD + 'merge', MD + 'append']
+for (n, t, tier, tmo) in [(10, 1, 'thorough', 3600), (10, 2, 'quick', 3600), (11, 16, 'thorough', 3600), (20, 4, 'thorough', 7200), (30, 4, 'thorough', 10800), (30, 16, 'thorough', 10800)]:
+    ob('C11.tree.n%d.t%d' % (n, t), ['C11'], 'merge_ska_dict/tree', 'tree_n%d_t%d' % (n, t), tier=tier, functions=TREEF, inst='u64', needs_parts=['merge_ska_dict/common', 'ska_dict/acc'],
+       caps={'MCAP': 2, 'SCAP': 1, 'ACAP': 1}, models=['hashbrown', 'rayon (sequential join, pool flag)', 'indicatif'], stubs=['SkaDict::new -> dictionary provider: one symbolic (k-mer, base) entry per sample (environment stub)'],
+       sym='%d samples, each with one k-mer of a 2-key universe and a symbolic base; strand mode; threads = %d' % (n, t), oracle='names in input order; every key vector = the serial table (own base in own column, 0 elsewhere)',
+       bounds='%d samples, threads=%d (merge depth %s)' % (n, t, {(10, 1): 0, (10, 2): 1, (11, 16): 1, (20, 4): 1, (30, 4): 2, (30, 16): 2}[(n, t)]), timeout=tmo, mem_gb=24, mem_expect_gb=10)
+
+for t in (1, 2):
+    ob('C11.pool.map.t%d' % t, ['C11'], 'ska_ref/pool', 'map_after_build_t%d' % t, functions=['src/merge_ska_dict.rs::build_and_merge', RS + 'pseudoalignment', AW + 'write_split_kmer', AW + 'finalise'], inst='u64',
+       needs_parts=['ska_ref/common'], caps={'MCAP': 2, 'SCAP': 1, 'ACAP': 2}, models=['hashbrown', 'ndarray', 'rayon (sequential; build_global fails the second time)', 'needletail::write_fasta'],
+       stubs=['SkaDict::new -> dictionary provider (environment stub)', 'AlnWriter::write_split_kmer / finalise -> no-op (environment stub)'], sym='reference of 6 symbolic bases; two samples sharing the reference k-mer (concrete middle bases); threads = %d' % t,
+       oracle='the build -> (mapped state) -> pseudoalignment sequence completes (no panic) with one aligned sequence per sample', bounds='reference of 6 bases, k=5, 2 samples', timeout=3600, mem_gb=20, mem_expect_gb=8)
